@@ -150,8 +150,6 @@ def filt(jobs):
                 b = subprocess.run(["cargo", "test", "--lib", "--offline", "--no-run"], cwd=repo, env=env, stdout=subprocess.PIPE, stderr=subprocess.PIPE, text=True)
                 if b.returncode != 0:
                     res[m["id"]] = "nocompile"
-                elif "warning: unused" in b.stderr or "warning: unreachable" in b.stderr or "warning: variable" in b.stderr or "warning: value assigned" in b.stderr:
-                    res[m["id"]] = "warns"
                 else:
                     try:
                         t = subprocess.run(["cargo", "test", "--lib", "--offline"], cwd=repo, env=env, stdout=subprocess.PIPE, stderr=subprocess.PIPE, text=True, timeout=120)
